@@ -10,6 +10,7 @@ from vtlib import rt
 from vtlib.driver import Cond
 from vtlib.harness import scen
 from vtlib.harness.scen import World, Beh, Sched
+from vtlib.world import core
 
 PROPERTY = 'C03'
 TITLE = 'Graceful termination: stop signal first, SIGKILL only after the grace period'
@@ -29,7 +30,7 @@ EXPLANATION = ('C03: graceful_timeout and the worker reaction delay range over a
                'instants and at the timeout); cause, stop signal, stop_children and per-request overrides are shard keys. ')
 
 CAUSES = ('stop', 'restart', 'decr', 'reload', 'kill', 'kill_override', 'max_age', 'reload_seq', 'kill_then_max_age',
-          'kill_then_decr')
+          'kill_then_decr', 'failed_kill_then_stop', 'eperm_stop_then_stop')
 EPS = 1e-6
 STEP = 0.1
 GRID = tuple(i * 0.05 for i in range(0, 41))     # timing values are concrete floats selected by a symbolic index
@@ -68,6 +69,11 @@ def c03_grace(gi: int, ri: int, oi: int) -> bool:
         eff_T = T
         eff_sig = stop_sig
         t0 = w.clock.now
+        vanished = None
+        if S.get('childdeath') and nchild >= 2 and oi > 0:
+            # the first-listed child of the worker exits by itself at kernel call oi of the termination (it may be gone when its turn comes)
+            vanished = kids[victims[0]][0]
+            k.injections.append({'at_call': k.calls + oi, 'victim': ('pid', vanished), 'status': core.status_exit(0)})
         if cause == 'stop':
             req = w.send('stop', name='a', waiting=True, match='simple')
         elif cause == 'restart':
@@ -84,6 +90,21 @@ def c03_grace(gi: int, ri: int, oi: int) -> bool:
             eff_T = GRID[oi]
             eff_sig = int(signal.SIGUSR2)
             req = w.send('kill', name='a', waiting=True, signum='usr2', graceful_timeout=eff_T)
+        elif cause == 'failed_kill_then_stop':
+            # an earlier kill request named a number that is no signal (kill(2) fails with EINVAL): nothing was delivered,
+            # and the worker must be terminated normally by the next request
+            w.call('kill', name='a', waiting=True, signum=99, max_time=5.0)
+            w.run_for(0.05)
+            t0 = w.clock.now
+            req = w.send('stop', name='a', waiting=True, match='simple')
+        elif cause == 'eperm_stop_then_stop':
+            # the first stop is cut short: delivering its stop signal fails once with EPERM; the stop is then requested again
+            k.kill_errors.add(k.kill_count)
+            w.call('stop', name='a', waiting=True, match='simple', max_time=5.0)
+            k.kill_errors.clear()
+            w.run_for(0.05)
+            t0 = w.clock.now
+            req = w.send('stop', name='a', waiting=True, match='simple')
         elif cause in ('kill_then_max_age', 'kill_then_decr'):
             # two terminations of the same worker overlap: a kill request is in its grace period when the
             # periodic check (max_age expiry) / a decr re-evaluates the process set
@@ -104,8 +125,14 @@ def c03_grace(gi: int, ri: int, oi: int) -> bool:
             w.arbiter.manage_watchers()
         w.run_until(lambda: (req is not None and bool(req.replies)) or
                     (req is None and w.arbiter._exclusive_running_command is None), max_time=eff_T + 30)
-        w.run_for(0.3)
+        if not w.clock.tripped:
+            w.run_for(0.3)
         if w.clock.tripped:
+            # the loop blocked (C05's business) -- unless it blocked BECAUSE a worker was never signalled at all
+            unsignalled = [p for p in victims if not [s for s in k.signal_log if s['pid'] == p and s['t'] >= t0 - EPS]]
+            if unsignalled and cause in ('failed_kill_then_stop', 'eperm_stop_then_stop'):
+                rt.note('worker(s) %r never received the stop signal of the %s; the daemon then blocked waiting for them', unsignalled, cause)
+                return rt.verdict(False)
             return rt.skip()
         if cause == 'reload_seq':
             # workers are terminated one after the other: t0 of each is its own first signal
@@ -156,6 +183,8 @@ def c03_grace(gi: int, ri: int, oi: int) -> bool:
             # children
             if nchild:
                 for c in kids[pid]:
+                    if c == vanished and k.procs[c].death_how == 'injected':
+                        continue              # it left by itself; its siblings are still owed every signal
                     direct = k.procs[c].orig_ppid == pid
                     cs = [s for s in k.signal_log if s['pid'] == c]
                     if direct and (not cs or cs[0]['sig'] != eff_sig):
@@ -255,6 +284,8 @@ def plan(tier):
             s['n0'] = 2 if cause != 'decr' else 1
         sh.append(s)
     sh.append({'cause': 'stop', 'children': 2, 'gmax': 4, 'rmax': 6})
+    sh.append({'cause': 'stop', 'children': 2, 'gmax': 2, 'rmax': 4, 'childdeath': True, 'omax': 8})
+    sh.append({'cause': 'kill', 'children': 2, 'gmax': 2, 'rmax': 4, 'childdeath': True, 'omax': 8})
     sh.append({'cause': 'kill', 'children': 1, 'grand': 1, 'gmax': 4, 'rmax': 6})
     sh.append({'cause': 'stop', 'sig': int(signal.SIGINT), 'gmax': 3, 'rmax': 4})
     sh.append({'cause': 'restart', 'sig': int(signal.SIGUSR1), 'gmax': 3, 'rmax': 4})
@@ -262,5 +293,5 @@ def plan(tier):
         Cond('c03_grace', shards=sh, budget=200 if q else 1500, twins=3,
              bounds={'gi': 'S: graceful_timeout = gi*0.05 s, gi in [0,gmax]', 'ri': 'S: reaction delay ri*0.05 s, ri in [0,rmax) ; ri = rmax: ignores the signal',
                      'oi': 'S: per-request graceful_timeout override oi*0.05 s', 'cause': 'S%r' % (CAUSES,),
-                     'stop_signal': 'S{TERM, INT, USR1} (+USR2 as override)', 'children': 'S{0, 2 children, 1 child + 1 grandchild}'}),
+                     'stop_signal': 'S{TERM, INT, USR1} (+USR2 as override)', 'children': 'S{0, 2 children, 1 child + 1 grandchild}; with childdeath the first-listed child exits at kernel call oi of the termination'}),
     ]
